@@ -329,7 +329,7 @@ func checkC05(p *load.Program, r *kit.Report) {
 		nil, func(*ssa.Function, fieldAccess) string { return "" })
 	if g := fn(p, r, "LOCKSET", R, "NodeManager.runSynchronizeBlocks"); g != nil {
 		li := kit.Lockset(g, nil)
-		lock := li.Key(g.Params[0]) + ".blockManagerLock"
+		lock := li.Key(g.Params[0]) + "." + curName(p, "blockManagerLock")
 		var ld, st ssa.Instruction
 		for _, a := range fieldAccesses(g, nm("blockSyncNeeded")) {
 			if a.write {
